@@ -222,20 +222,50 @@ def shard(prop: str, tier: str, seed: int, n: int) -> dict[str, Any]:
     return c.export()
 
 
+CANCEL_SWEEP = ("chain", "diamond", "multitask", "before", "after", "gate", "loop2", "cof")
+
+
+def shard_cancel_sweep(prop: str, tier: str, seed: int, name: str) -> dict[str, Any]:
+    """The cancel at every delivery position of the FIFO run, the fan-out then delivered in order and with one message type
+    held back (so the cancel reaches a task through its own RunTask / CompleteTask before - or after - the CancelStage)."""
+    c = Campaign(prop, tier, seed, LEVEL)
+    spec = core_corpus()[name]
+    steps = Run(spec, make_schedule({"style": "fifo", "d": [], "R": 2}), events=True).drain().steps
+    sds = [{"style": "fifo", "d": [], "R": 2}]
+    for hold, hf in (("CancelStage", 3), ("CancelStage", 12), ("RunTask", 4), ("CompleteStage", 4), ("CompleteTask", 4), ("StartTask", 4)):
+        sds.append({"style": "hold", "d": [], "R": 2, "hold": hold, "hold_for": hf})
+    if tier == "thorough":
+        sds += [{"style": "uniform", "d": [2 * a, 2 * b], "R": 2} for a in range(3) for b in range(3) if a or b]
+    for at in range(steps + 2):
+        for sd in sds:
+            run = Run(spec, make_schedule(sd), events=True)
+            run.injections.setdefault(at, []).append(inj_cancel())
+            run.drain()
+            judge(c, spec, run, {**sd, "cancel_at": at}, ["cancel-sweep", f"style:{sd['style']}", "inj:cancel"])
+    return c.export()
+
+
+def _dispatch(fn, a):  # noqa: ANN001
+    return fn(*a)
+
+
 def run(c: Campaign, jobs: int) -> None:
     n = 640 if c.tier == "quick" else 20000
     shards = max(1, jobs)
-    run_shards(c, shard, [(c.prop, c.tier, c.seed * 1000 + k, max(1, n // shards)) for k in range(shards)], jobs)
+    args = [(shard, (c.prop, c.tier, c.seed * 1000 + k, max(1, n // shards))) for k in range(shards)]
+    args += [(shard_cancel_sweep, (c.prop, c.tier, c.seed, name)) for name in CANCEL_SWEEP]
+    run_shards(c, _dispatch, args, jobs)
+    c.exhaustive_parts.append("cancel injected before every delivery position of the FIFO run of 8 corpus workflows, fan-out delivered in order and with one message type held back")
     c.exhaustive_parts.append("per run: every prefix length of the workflow's event log and every snapshot position")
     c.rule = ("case = (spec, crash-free schedule, optional injected cancel / signal); per case every event-log prefix and every snapshot position "
               "is checked. Non-trivial = the log contains a failure / skip / cancel event or the spec loops. Distinct = hash of the case.")
     c.assumptions += [
         "the as-of oracle is an independent re-implementation of the documented fold (started -> RUNNING, completed/failed -> carried status, skipped, canceled)",
         "comparable entities = last durable status change written by StartStage(->RUNNING)/CompleteStage/SkipStage/CancelStage (stages), StartTask/CompleteTask non-SKIPPED (tasks), StartWorkflow/CompleteWorkflow (workflow)",
-        "snapshots do not restore workflow start/end timestamps by design; those two fields are not compared",
+        "snapshot + tail is compared with the full replay on statuses, context, outputs and the workflow's start/end timestamps",
         "event store in the same SQLite database; crash-free runs only",
     ]
-    for cls in ("ev:stage.failed", "ev:stage.skipped", "ev:stage.canceled", "ev:workflow.canceled", "feat:jump", "inj:signal"):
+    for cls in ("ev:stage.failed", "ev:stage.skipped", "ev:stage.canceled", "ev:workflow.canceled", "feat:jump", "inj:signal", "cancel-sweep"):
         if c.classes.get(cls, 0) == 0:
             c.harness_error(f"generator starvation: class {cls} never produced")
 
